@@ -27,6 +27,12 @@ pub fn unnamed() -> String { "<unnamed function>".to_string() }
 
 pub fn shape_preds(printed: &Printed, e: &RErr) -> Vec<DiagPred> {
     let mut v = vec![DiagPred::WellFormed{max_line: printed.n_lines()}];
+    // A call made from inside an interpolation slot is reported with
+    // slot-relative positions and a nested location prefix (DESIGN.md §3.7):
+    // only the general shape is asserted then.
+    if e.stack.iter().any(|f| printed.first.get(f.call as usize).copied().flatten().is_none()) {
+        return v;
+    }
     let in_func = e.stack.last().map(|f| f.callee.clone().unwrap_or_else(unnamed));
     v.push(DiagPred::InFunc(in_func));
     if e.stack.is_empty() {
